@@ -736,7 +736,7 @@ class MemCheck:
             for label, arch, rc, txt, out in ex.map(one, jobs):
                 if rc != 0 or not os.path.exists(out):
                     merged["violations"].append({"property": prop, "op": "harness run", "type": label or "plain", "arch": arch, "finding": "", "in": [],
-                                                 "note": "the %s memory harness died with status %d: %s" % (label or "plain", rc, txt[-400:])})
+                                                 "note": "the %s memory harness died with status %d: %s" % (label or "plain", rc, " ".join(l for l in txt.splitlines() if l.startswith("UNGUARDED-FAULT"))[:300] or txt[-400:])})
                     merged["by_key"]["harness|run|%s|" % arch] = 1
                     continue
                 r = json.load(open(out))
